@@ -79,6 +79,9 @@ package mqtt
 //@          *closureVarN[**reconnectClient](evArg[func()]("go:(*reconnectClient).Connect$1$3", 0, 0), "(*reconnectClient).Connect$1$3", "c") == c &&
 //@          iterFresh(closureVarN[**BaseClient](evArg[func()]("go:(*reconnectClient).Connect$1$3", 0, 0), "(*reconnectClient).Connect$1$3", "baseCli")) &&
 //@          *closureVarN[*context.Context](evArg[func()]("go:(*reconnectClient).Connect$1$3", 0, 0), "(*reconnectClient).Connect$1$3", "ctxKeepAlive") == evRet[context.Context]("context.WithCancel", 0, 0))
+//@   note once Connect has returned, its context no longer matters: the keep-alive of every connection (the first included) hangs off the background context
+//@   loop 1 iter[C09,C13,C16] keepalive_outlives_connect_ctx: connected ==> evCount("context.WithCancel") == 1 &&
+//@        evArg[context.Context]("context.WithCancel", 0, 0) == ctx && ctx == context.Background()
 //@   loop 1 iter[C13] redial_after_connection_loss: connected ==> evCount("select") == 2 && evRet[int]("select", 0, 0) == 0 &&
 //@        evArg[<-chan struct{}]("select", 0, 0) == evRet[<-chan struct{}]("(*BaseClient).Done", 0, 0) && evRet[error]("(*BaseClient).Err", 0, 0) != nil &&
 //@        evCount("callback:context.CancelFunc") >= 1
